@@ -670,6 +670,41 @@ var _ = late(func() {
 						}
 						break
 					}
+					if call, isCall := v.(*ssa.Call); isCall {
+						// built by a constructor of the package (newDequeIterator(d)): the object it returns is given the parameter
+						// that stands for the receiver
+						if cal := staticCallee(&call.Call); cal != nil && cal.Blocks != nil && rootFn(origin(cal)).Pkg == rootFn(fn).Pkg {
+							given := false
+							for _, rv := range returnedBy(origin(cal), 0) {
+								v2 := rv
+								if mi, isMI := v2.(*ssa.MakeInterface); isMI {
+									v2 = mi.X
+								}
+								al2, isAl2 := v2.(*ssa.Alloc)
+								if !isAl2 {
+									continue
+								}
+								for _, ref := range refsOf(al2) {
+									fa, isFA := ref.(*ssa.FieldAddr)
+									if !isFA {
+										continue
+									}
+									for _, r2 := range refsOf(fa) {
+										if st, isSt := r2.(*ssa.Store); isSt && st.Addr == ssa.Value(fa) {
+											if prm, isP := resolveVal(st.Val).(*ssa.Parameter); isP {
+												if idx := paramIndex(prm); idx >= 0 && idx < len(call.Call.Args) && resolveVal(call.Call.Args[idx]) == ssa.Value(recv) {
+													given = true
+												}
+											}
+										}
+									}
+								}
+							}
+							if given {
+								continue
+							}
+						}
+					}
 					al, isAl := v.(*ssa.Alloc)
 					if !isAl {
 						holds, what = false, path(v)
